@@ -371,6 +371,12 @@ def _train_op(rep: Report, plan: dict[str, Any], ref: R.RefKFAC,
     if not finite:
         ref.diverged = True
         rep.stats['vacuous_nonfinite_input'] += 1
+        # the reference cannot (and need not) follow a diverged run
+        ref.steps += 1
+        if unint is not None:
+            unint.steps += 1
+            unint.diverged = True
+        return
     factor_step = ref.is_factor_step()
     inv_step = ref.is_inv_step()
     moments = _moments(infos, by_rank) if factor_step else None
@@ -384,10 +390,16 @@ def _train_op(rep: Report, plan: dict[str, Any], ref: R.RefKFAC,
             unint.steps += 1
         rep.stats['train_ops_without_layers'] += 1
         return
-    info = ref.step(moments, D)
-    uinfo = None
-    if unint is not None:
-        uinfo = unint.step(moments, D)
+    try:
+        info = ref.step(moments, D)
+        uinfo = None
+        if unint is not None:
+            uinfo = unint.step(moments, D)
+    except torch.linalg.LinAlgError:
+        # ill-posed reference system (a diverging run): vacuous from here on
+        ref.diverged = True
+        rep.stats['vacuous_reference_failed'] += 1
+        return
     agree = uinfo is None or all(
         torch.equal(info['grads'][n], uinfo['grads'][n]) for n in infos)
     bound = R.C_SOLVE * eps * info['cond']
